@@ -1186,6 +1186,17 @@ def rule_fields_do_not_shadow_imports(repo: Repo, rep, rule: str = "R1.21") -> N
                     nm = const_str(c.args[1])
                     if nm and nm.islower() and nm.isidentifier():
                         imported.setdefault(nm, f"{mod.relpath}:{c.lineno}")
+        # registrations driven by a table of the module: `{"date": ("datetime", "date"), ...}` handed to add_import(*entry)
+        for st_ in mod.tree.body:
+            if isinstance(st_, (ast.Assign, ast.AnnAssign)) and isinstance(getattr(st_, "value", None), ast.Dict) and any(
+                    isinstance(c2.func, ast.Attribute) and c2.func.attr == "add_import" for f2 in mod.functions.values() for c2 in calls_in(f2.node)):
+                import sys as _sys
+
+                for v_ in st_.value.values:
+                    if isinstance(v_, ast.Tuple) and len(v_.elts) == 2 and all(const_str(e) is not None for e in v_.elts) and (const_str(v_.elts[0]) or "").split(".")[0] in _sys.stdlib_module_names:
+                        nm = const_str(v_.elts[1])
+                        if nm and nm.islower() and nm.isidentifier():
+                            imported.setdefault(nm, f"{mod.relpath}:{v_.lineno}")
     rep.count(f"{rule}:lower_case_imports", sorted(imported))
     rep.require(len(imported) >= 4, f"{rule}: only {len(imported)} lower-case import registrations found in the model-rendering code (floor 4)")
     utils = repo.module("core.utils")
